@@ -225,8 +225,15 @@ class ForcedChooser(Chooser):
 def conformance_trace(obs_real) -> Optional[str]:
     """Replay the submit / yield trace of a real-runner run on SchedRunner.
     Returns None when accepted, else the reason it was rejected."""
+    from .e2 import outcome_fp
+    return conformance_trace_raw(obs_real.cfg, obs_real.events, outcome_fp(obs_real))
+
+
+def conformance_trace_raw(cfg_real, events_real, outcome_fp_real) -> Optional[str]:
     from .e2 import run_once, outcome_fp
     from dataclasses import replace
+    from types import SimpleNamespace
+    obs_real = SimpleNamespace(cfg=cfg_real, events=events_real)
     # batches of the real run, as tuples of positions in the in-flight list
     inflight: list = []
     batches: list = []
@@ -248,7 +255,13 @@ def conformance_trace(obs_real) -> Optional[str]:
             real_seq.append(('yield', ev[1], ev[2]))
     if cur is not None:
         batches.append(tuple(cur))
-    batches = [b for b in batches]
+    # consecutive empty polls (time-outs) are stutter-equivalent to one
+    collapsed = []
+    for b in batches:
+        if not b and collapsed and not collapsed[-1]:
+            continue
+        collapsed.append(b)
+    batches = collapsed
     cfg = replace(obs_real.cfg, batch=max([len(b) for b in batches] + [1]), stutter=True)
     ch = ForcedChooser(batches)
     obs = run_once(cfg, ch)
@@ -262,6 +275,12 @@ def conformance_trace(obs_real) -> Optional[str]:
             model_seq.append(('yield', ev[1], ev[2]))
     if model_seq != real_seq:
         return f'submit/yield sequences differ: real {real_seq} model {model_seq}'
-    if outcome_fp(obs) != outcome_fp(obs_real):
-        return f'outcomes differ: real {outcome_fp(obs_real)} model {outcome_fp(obs)}'
+    if _norm(outcome_fp(obs)) != _norm(outcome_fp_real):
+        return f'outcomes differ: real {outcome_fp_real} model {outcome_fp(obs)}'
     return None
+
+
+def _norm(x):
+    if isinstance(x, (list, tuple)):
+        return tuple(_norm(y) for y in x)
+    return x
